@@ -194,8 +194,12 @@ def run(chk):
     chk.trusted += ["provenance axioms as in C09", "module-level names are bound once at import (no `global` statement anywhere: checked)", "the standard library and numpy/scipy keep no history-dependent state that affects results"]
     chk.assumptions += ["sequential histories only: G1/G2 remove every shared mutable state inside iodata, which is what makes call results independent of order and repetition"]
     chk.not_covered += ["thread schedules (2..16 threads): contract-based verification as built here is silent on concurrency; warnings.catch_warnings in api._reissue_warnings is documented by CPython as not thread-safe -- this half of the property is NOT decided"]
-    res = collect(chk, run_jobs([("checks.c16", "job_frame", {})]))
+    # a dump that alters the object it was given makes the next call on that object depend on the history: the frame
+    # obligations of the dump call graph (C09) are part of this property and are re-decided here
+    res = collect(chk, run_jobs([("checks.c16", "job_frame", {}), ("checks.c09", "job_frame", {})]))
     for r in res:
+        if "reachable" not in r:
+            continue
         chk.notes["functions_checked"] = r.get("functions")
         chk.notes["functions_reachable_from_api"] = r.get("reachable")
         chk.notes["mutation_sites_checked"] = r.get("mutation_sites")
